@@ -43,6 +43,9 @@ def compute_pure_names(prog: Program) -> set[str]:
                             # stores to self.* inside __init__ are construction
                             if f.name == "__init__":
                                 continue
+                            # element store into a container created in this activation
+                            if isinstance(x, ast.Subscript) and isinstance(x.value, ast.Name) and _fresh_local(f.node, x.value.id):
+                                continue
                             return True
             if isinstance(n, ast.Delete):
                 return True
@@ -80,6 +83,21 @@ def compute_pure_names(prog: Program) -> set[str]:
     return set(by_name) - impure
 
 
+def _is_fresh_expr(d: ast.AST) -> bool:
+    if isinstance(d, (ast.List, ast.Dict, ast.Set, ast.ListComp, ast.DictComp, ast.SetComp)):
+        return True
+    if isinstance(d, ast.Subscript) and isinstance(d.slice, ast.Slice):
+        return True
+    if isinstance(d, ast.Call):
+        if isinstance(d.func, ast.Attribute) and d.func.attr == "copy" and not d.args:
+            return True
+        if isinstance(d.func, ast.Name) and d.func.id in ("list", "dict", "set", "sorted"):
+            return True
+    if isinstance(d, ast.BinOp) and isinstance(d.op, ast.Add):
+        return _is_fresh_expr(d.left) or _is_fresh_expr(d.right)
+    return False
+
+
 def _fresh_local(fn: ast.AST, name: str) -> bool:
     defs = []
     for n in walk_own(fn):
@@ -87,7 +105,10 @@ def _fresh_local(fn: ast.AST, name: str) -> bool:
             defs.append(n.value)
         elif isinstance(n, ast.AnnAssign) and isinstance(n.target, ast.Name) and n.target.id == name and n.value is not None:
             defs.append(n.value)
-    return bool(defs) and all(isinstance(d, (ast.List, ast.Dict, ast.Set, ast.ListComp, ast.DictComp, ast.SetComp)) for d in defs)
+    a = getattr(fn, "args", None)
+    if a is not None and name in {x.arg for x in [*a.posonlyargs, *a.args, *a.kwonlyargs]}:
+        return False
+    return bool(defs) and all(_is_fresh_expr(d) for d in defs)
 
 
 def _callee_name(c: ast.Call) -> str | None:
